@@ -819,6 +819,13 @@ func (g *gen) evalCall(env *specEnv, e *SExpr) (Val, error) {
 			t = app("i_val", t)
 		}
 		return boolVal(app("private", t)), nil
+	case "nodeInTree":
+		g.declareFun("private", []string{"Int"}, "Bool")
+		if args[0].Sort == "Iface" {
+			p := app("i_val", args[0].T)
+			return boolVal(and(not(eq(app("i_tag", args[0].T), "0")), not(eq(p, "0")), or(g.alive0Term(p), app("private", p)))), nil
+		}
+		return boolVal(and(not(eq(args[0].T, "0")), or(g.alive0Term(args[0].T), app("private", args[0].T)))), nil
 	case "cursorPrivate":
 		g.declareFun("cursorPrivate", []string{"Int"}, "Bool")
 		return boolVal(app("cursorPrivate", args[0].T)), nil
@@ -861,6 +868,10 @@ func (g *gen) evalCall(env *specEnv, e *SExpr) (Val, error) {
 			t = app("s_base", t)
 		}
 		return intVal(g.birth(t)), nil
+	case "asString":
+		// asString(b): the text a []byte value was converted from (ghost of the string->[]byte conversion)
+		g.declareFun("bytes_as_string", []string{"Int"}, "String")
+		return strVal(app("bytes_as_string", app("s_base", args[0].T))), nil
 	case "payload":
 		return Val{T: app("i_val", args[0].T), Sort: "Int"}, nil
 	case "isNilIface":
